@@ -5,4 +5,6 @@ extern int allocmon_active;
 extern long allocmon_nalloc, allocmon_fail_at, allocmon_failed_count, allocmon_live_blocks, allocmon_untracked_frees;
 extern size_t allocmon_live_bytes, allocmon_peak_bytes;
 void allocmon_reset(void);
+extern unsigned long allocmon_file_reads, allocmon_file_seeks;
+extern void (*allocmon_step_hook)(void);
 #endif
